@@ -43,6 +43,12 @@ CHECKS = {
  "C04": ("differential monitor against exact int64 triple-loop references (integer entries) and long-double references with rounding bounds (real entries) for every routine x every combination of the three storage classes, brute force over all permutations for the assignment solver; " + SAN,
          "Every MatrixTools routine of the statement (products incl. diagonal/tridiagonal/complex, add, scaled add, scale, transpose, copy, pow, Taylor, Kronecker x3, Hadamard x3, direct sums, covariance, extrema, sums, fills/diagonals, shifts) for shapes 0x0..7x7 incl. 1xn/nx1/non-square, results unsized and wrongly pre-sized, all RowMatrix/ColMatrix/LinearMatrix combinations; non-conformable operands must raise DimensionException and never abort; lap(): exhaustive for n<=3 over {0,1,2} and random to 7x7 with ties/negative costs: permutation, inverse, optimal cost vs all n! permutations, dual feasibility and complementary slackness, termination.",
          "6/C04"),
+ "C05": ("a-posteriori backward-error monitors computed from the returned factors (they cannot alarm on correct code), exact Bareiss __int128 determinants, designed pivots for the singularity decision; " + SAN,
+         "n = 1..10: integer matrices in [-9,9], matrices with prescribed singular values (condition 1..1e6), permuted triangular, rank-deficient and scaled matrices, right-hand sides with 1..4 columns in every storage class: L unit lower / U upper / pivot a permutation exactly, |PA-LU| <= 8n eps |L||U| and |B-AX| <= 24n eps P^T|L||U||X| entrywise, det = sign x prod U_ii vs the exact determinant with a Hadamard-based tolerance, det(A)=det(A^T), det(AB)=det A det B, returned indicator = smallest pivot, ZeroDivisionException iff the smallest pivot is below the threshold (pivots designed a factor >= 4 away or on powers of two), wrong right-hand-side height refused.",
+         "6/C05"),
+ "C06": ("residual monitors ||AV-VD|| per block with constants from backward-error theory, spectrum reconstruction against prescribed spectra (Bauer-Fike radius), long-double Jacobi / power-series references, watchdog for the QR iteration; " + SAN,
+         "n = 1..12 in every storage class: random dense, symmetric, triangular, companion with prescribed real/complex spectra, rotation blocks, repeated eigenvalues, graded, zero/identity matrices: ||Av-vB||_F <= C n eps ||A||_F ||v||_F per block (C = 1e4 / 1e3 symmetric), (d,e) consistent with D, trace and determinant reproduced, symmetric input: e = 0, ascending d, V orthonormal, eigenvalues vs long-double Jacobi; exp and pow(A,p) vs long-double references with bounds using cond(V); DualityDiagram eigenvalues and duality relations; 13 stored witnesses (incl. the two repaired hqr2 non-terminations).",
+         "6/C06"),
  "C07": ("differential monitor against exact integer (__int128) and long-double references, identity checks for the log-domain family, exhaustive edge table for empty/length-one/mismatched operands; " + SAN,
          "Every function family named in the statement on vectors of length 0..64 (small integers: exact; reals: rounding bound n*eps*sum|terms|), pairs of equal and unequal length with the documented exception or at least no abort, log-domain identities (shift equivariance, max <= lse <= max+log n, finiteness, logsum of two log-zeros), FDR against the Benjamini-Hochberg formula.",
          "6/C07"),
